@@ -25,6 +25,17 @@ ERRNOS = {"mkdtemp": _errno.EACCES, "open": _errno.EACCES, "write": _errno.ENOSP
           "copymode": _errno.EPERM, "replace": _errno.EXDEV, "remove": _errno.EACCES, "rmdir": _errno.EBUSY}
 
 
+PURE = {"fspath", "join", "basename", "dirname", "normpath", "abspath", "isabs", "split", "splitext", "relpath",
+        "commonpath", "commonprefix", "normcase", "expanduser", "expandvars", "splitdrive", "cpu_count", "getpid",
+        "get_terminal_size", "getcwd", "strerror", "fsencode", "fsdecode", "get_ident", "urandom"}
+
+
+def faultable(kind: str) -> bool:
+    """The modelled FS-affecting calls, plus ANY other call into os / os.path / shutil / tempfile (by name):
+    a call the current code does not make is still seen, logged as unmodelled, and can be failed."""
+    return kind in FAULTABLE or kind.startswith(("os.", "shutil.", "tempfile."))
+
+
 class Ctl:
     """Interruption control of one save.
     kill_at  = k: the process dies (os._exit) just before effect number k;
@@ -46,11 +57,11 @@ class Ctl:
         if self.kill_at is not None and k == self.kill_at:
             os._exit(77)
         self.n += 1
-        if kind in FAULTABLE and ((self.fault_at is not None and k == self.fault_at)
+        if faultable(kind) and ((self.fault_at is not None and k == self.fault_at)
                                   or (self.persistent and self.failed_kind == kind)):
             self.failed_kind = kind
             self.log.append(("fail", kind))
-            e = self.err or ERRNOS[kind]
+            e = self.err or ERRNOS.get(kind, _errno.EPERM)
             raise OSError(e, os.strerror(e) + " (injected)")   # EACCES/EPERM -> PermissionError
 
 
@@ -96,6 +107,12 @@ class _PathProxy:
                 c.log.append(("samefile", os.fspath(a), os.fspath(b), r))
                 return r
             return samefile
+        if callable(real) and name not in PURE and not isinstance(real, type):
+            def other(*a, **kw):
+                c.tick("os.path." + name)
+                c.log.append(("unmodelled", "os.path." + name, [repr(x)[:80] for x in a]))
+                return real(*a, **kw)
+            return other
         return real
 
 
@@ -125,8 +142,7 @@ class _OsProxy:
                 c.log.append(("rmdir", os.fspath(p)))
                 return real(p, **kw)
             return rmdir
-        if name in ("rename", "renames", "link", "symlink", "truncate", "chmod", "mkdir", "makedirs",
-                    "removedirs", "open", "write", "pwrite", "ftruncate", "copy_file_range", "sendfile"):
+        if callable(real) and name not in PURE and not isinstance(real, type):
             def other(*a, **kw):
                 c.tick("os." + name)
                 c.log.append(("unmodelled", "os." + name, [repr(x)[:80] for x in a]))
@@ -161,9 +177,7 @@ class _ModProxy:
                 c.log.append(("copymode", os.fspath(a), os.fspath(b)))
                 return real(a, b, **kw)
             return copymode
-        if callable(real) and not isinstance(real, type) and name in (
-                "copy", "copy2", "copyfile", "copyfileobj", "copystat", "move", "rmtree", "copytree",
-                "mkstemp", "NamedTemporaryFile", "TemporaryDirectory", "TemporaryFile"):
+        if callable(real) and not isinstance(real, type) and not name.startswith("_"):
             def other(*a, **kw):
                 c.tick(self._n + "." + name)
                 c.log.append(("unmodelled", self._n + "." + name, [repr(x)[:80] for x in a]))
@@ -244,7 +258,9 @@ class Shim:
         from onnx_ir import _core
         from onnx_ir import external_data as ed
         self.ed, self.core = ed, _core
-        self.saved = {"os": ed.os, "shutil": ed.shutil, "tempfile": ed.tempfile,
+        # the module may stop (or start) importing one of these: absent names are installed and removed again
+        self.saved = {"os": ed.__dict__.get("os"), "shutil": ed.__dict__.get("shutil"),
+                      "tempfile": ed.__dict__.get("tempfile"),
                       "open": ed.__dict__.get("open", None), "chunk": _core._EXTERNAL_TENSOR_COPY_CHUNK_SIZE,
                       "release": _core.ExternalTensor.release, "invalidate": _core.ExternalTensor.invalidate}
         c = self.ctl
@@ -275,7 +291,11 @@ class Shim:
 
     def __exit__(self, *a):
         ed, _core, s = self.ed, self.core, self.saved
-        ed.os, ed.shutil, ed.tempfile = s["os"], s["shutil"], s["tempfile"]
+        for name in ("os", "shutil", "tempfile"):
+            if s[name] is None:
+                ed.__dict__.pop(name, None)
+            else:
+                setattr(ed, name, s[name])
         if s["open"] is None:
             ed.__dict__.pop("open", None)
         else:
@@ -364,6 +384,7 @@ def build(scn: dict, root: str) -> Built:
             os.link(os.path.join(root, spec["target"]), p)
     b = Built()
     b.root = root
+    b.views = []          # live numpy views held by the "caller"
     b.ext = []            # ExternalTensor objects by handle
     b.small = []          # handles loaded to memory first
     inits = []
@@ -382,8 +403,10 @@ def build(scn: dict, root: str) -> Built:
                 loc, bdir = t["file"], root
             obj = ir.ExternalTensor(loc, t["off"], t["len"], ir.DataType.UINT8,
                                     shape=ir.Shape([t["len"]]), name=name, base_dir=bdir)
-            if t.get("preload"):
-                obj.numpy()
+            if t.get("preload") or t.get("hold"):
+                arr = obj.numpy()
+                if t.get("hold"):
+                    b.views.append(arr)     # the caller keeps using the array: the memory map cannot be closed
             h = len(b.ext)
             b.ext.append(obj)
             if obj.nbytes <= thr:
@@ -411,6 +434,16 @@ def build(scn: dict, root: str) -> Built:
     b.inits = inits
     b.before = snapshot(root)
     return b
+
+
+def cleanup(b) -> None:
+    """Drop the caller's views and unmap the scenario's tensors."""
+    b.views.clear()
+    for t in b.ext:
+        try:
+            t.release()
+        except BufferError:
+            pass
 
 
 def snapshot(root: str) -> dict:
@@ -493,8 +526,7 @@ def run_killed(scn: dict, root: str, index: int, fault_at=None, err=None, persis
             code = 4
         os._exit(code)
     _, status = os.waitpid(pid, 0)
-    for t in b.ext:
-        t.release()
+    cleanup(b)
     return os.waitstatus_to_exitcode(status), b.before
 
 
